@@ -140,6 +140,12 @@ class PredDomain(NormDomain):
     def call_ext(self, dotted, args, kwargs, node):
         if dotted == 'numpy.zeros' and kwargs.get('dtype') is not None and 'bool' in repr(kwargs.get('dtype')):
             return Const(False)
+        if dotted in ('numpy.logical_not', 'numpy.invert') and len(args) == 1 and isinstance(args[0], Pred) and set(kwargs) <= {'out'}:
+            return p_not(args[0])
+        if dotted in ('numpy.logical_and', 'numpy.logical_or', 'numpy.logical_xor', 'numpy.bitwise_and', 'numpy.bitwise_or', 'numpy.bitwise_xor') and len(args) == 2 \
+                and all(isinstance(a, Pred) for a in args) and set(kwargs) <= {'out'}:
+            op = {'and': ast.BitAnd, 'or': ast.BitOr, 'xor': ast.BitXor}[dotted.rsplit('_', 1)[-1]]()
+            return self.binop(op, args[0], args[1], node)
         if dotted == 'numpy.hypot' and len(args) == 2:
             ra, rb = self.rat(args[0]), self.rat(args[1])
             if ra is not None and rb is not None:
